@@ -1,7 +1,7 @@
 (** C08 trace monitor: lifecycle — reported lost at most once and never after a local close,
     drained exactly once, silent afterwards, close timer within 3 PTO, a local close announced
     by the very next poll, TimedOut not before the connection's own Idle deadline.
-    Projection expected: tags 1,2,3,4,5,6,8,10,12,13,15 in trace order. *)
+    Projection expected: tags 1,2,3,4,5,6,8,10,11,12,13,15 in trace order. *)
 From Coq Require Import ZArith List Bool.
 From QV Require Import Lib.Corr Sys.Trace.
 Import ListNotations.
@@ -100,10 +100,11 @@ Definition step (s : st) (r : list Z) : option st :=
     else if fld r 4 =? 3 then
       (* ConnectionLost: once, never after a local close.
          KNOWN FINDING lost-after-local-close (known_findings.txt): a stateless reset that arrives
-         while a locally closed connection is still closing is reported as ConnectionLost{Reset};
+         while a connection that is already closed (locally, or by the peer and already reported) is
+         still closing / draining is reported as ConnectionLost{Reset};
          the repository's own test client_stateless_reset pins that behaviour. Exempted only when
          the scenario carries key 902 (set by the driver after classifying the failure). *)
-      if known_ok s && closed_local c && negb (lost c) && (fld r 5 =? 5) then
+      if known_ok s && (closed_local c || lost c) && (fld r 5 =? 5) then
         Some (setc s k {| lost := true; drained := drained c; closed_local := closed_local c;
                           entry := entry c; expect_tx := expect_tx c;
                           last_rx := last_rx c; last_tx := last_tx c; lastp := lastp c |})
@@ -145,6 +146,10 @@ Definition step (s : st) (r : list Z) : option st :=
   else if tag r =? 6 then
     (* end of a drive: a close() must have produced its packet by now *)
     if expect_tx c then None else Some s
+  else if tag r =? 11 then
+    (* a datagram was routed to the handle of a connection the endpoint had forgotten: one of its
+       identifiers kept routing after Drained *)
+    if fld r 4 =? 1 then None else Some s
   else if tag r =? 12 then
     if (fld r 4 =? 0) && (fld r 5 =? 0) && (fld r 7 =? 0) then Some s else None
   else if (tag r =? 13) && (fld r 2 =? 11) then
